@@ -69,9 +69,14 @@ CHECKS={
    text="Bounded-exhaustive abstract API models against a reference catalog computed from the model: the product of request form (10) x response list of length 0..2 over 9 forms (91) x query (4) x annotation x description x 5 placements for a focus HTTP method (deviation-bounded), all 64 JSON-RPC method shapes, all INFO subsets, SERVER, TYPE of every notation and body of a 10-body alphabet, ENUM, each at 3 positions; thorough also under CRLF, tabs and trailing comments. Oracle: every declared field equal, collections exactly the expected keys in source order, arrays of exactly the expected length, undeclared fields absent.",
    ref="DESIGN.md §5 C04", note="Schema content is compared by a digest computed from the model for the body alphabet; the schema library is trusted for the rest of the AST. Unknown additional scalar fields are ignored (projection). Tags are C19's, path variables C13's.",
    technique=T_MC+"bounded-exhaustive enumeration of abstract models against a reference catalog (reference model written from the property, never from the code)"),
+ "C01":dict(engine="E-STREAMS",
+   text="The whole pipeline is run, in crash-isolated worker processes with a hang watchdog, on the union of complete / bounded-exhaustive streams: every reachable scanner state's representative x every alphabet token (complete E-SCAN graph, ~16k states x 339 tokens), every reachable context-resolution state's representative (~343k), all sequences of <=2 (thorough 3) directive variants, all paste graphs over <=3 (4) macros, include placements x trailing junk x target states x contents and all include graphs over 3 files, the fixture corpus with its complete one-line-edit neighbourhood, pool documents under every single ban / all bans, names over a stress alphabet. Oracle: no panic, no worker death (stack overflow, fatal error), no hang, result is a catalog or a JApiError, no Go runtime fault text in a diagnostic, and (through a build-time overlay of the schema library's panic handler) no runtime fault recovered inside the dependency.",
+   ref="DESIGN.md §5 C01", note="Hang limit 90 s per case. The S x K product is approximated by S x tokens and K representatives separately (both graphs complete). One open finding: a runtime fault inside the pinned schema library (known_findings.jsonl).",
+   technique=T_MC+"exhaustive exploration of state-graph representatives x tokens plus bounded-exhaustive input/fault streams, crash-isolated workers, fault attribution by overlay"),
 }
 ENGINES=[
  {"name":"E-SCAN","path":"internal/escan","serves_properties":["C14"],"kind_free_text":"explicit-state BFS over the real scanner.Next with a per-byte hook; abstract key cross-checked by second representatives"},
+ {"name":"E-STREAMS","path":"internal/checks/streams.go","serves_properties":[],"kind_free_text":"deterministic enumerations of projects shared (as code) by the aggregating checks: scanner-state and context-state representatives (prepared once by the parent), directive-variant sequences, paste graphs, include graphs and file-system states, corpus one-line-edit neighbourhood, option sets, stress names"},
  {"name":"E-CTX","path":"internal/checks/c06.go","serves_properties":[],"kind_free_text":"explicit-state BFS over the reference context resolver; every transition replayed through the real scanner + scanProject and paste expansion via verif-tagged dumps"},
  {"name":"E-STR","path":"internal/checks (c13 c15 c17 c19)","serves_properties":[],"kind_free_text":"all strings / texts up to a length bound over a stress alphabet, through hooked functions and end to end, against reference rules written from the property statements"},
  {"name":"E-DOC","path":"internal/doc + internal/checks","serves_properties":["C05"],"kind_free_text":"bounded-exhaustive document enumeration (block pool, renderer with spans) with metamorphic partners, sharded over crash-isolated worker processes (internal/fw)"},
